@@ -8,6 +8,7 @@ import (
 	"os"
 	"runtime"
 	"runtime/debug"
+	"runtime/pprof"
 	"strconv"
 	"strings"
 	"sync/atomic"
@@ -266,6 +267,15 @@ func dispatch(req *Req) (data interface{}, err error) {
 		return nil, nil
 	case "goroutines":
 		return runtime.NumGoroutine(), nil
+	case "cpuprof_start":
+		f, err := os.Create(req.Name)
+		if err != nil {
+			return nil, err
+		}
+		return nil, pprof.StartCPUProfile(f)
+	case "cpuprof_stop":
+		pprof.StopCPUProfile()
+		return nil, nil
 	}
 	if fn, ok := opHandlers[req.Op]; ok {
 		return fn(req)
